@@ -13,14 +13,15 @@ for id in $ids; do
   d=$SRC/$id
   [ -f $d/patch.diff ] || continue
   git -C $WT checkout -q -- . ; git -C $WT clean -fdq
-  sh $d/demo/demo.sh $WT > $d/confirm_clean.log 2>&1; a=$?
+  run_demo() { if head -1 $d/demo/demo.sh | grep -q bash; then bash $d/demo/demo.sh "$@"; else sh $d/demo/demo.sh "$@"; fi; }
+  run_demo $WT > $d/confirm_clean.log 2>&1; a=$?
   dirty_a=$(git -C $WT status --porcelain | wc -l)
   if git -C $WT apply $d/patch.diff 2>$d/confirm_apply.log; then ap=ok; else ap=fail; fi
   (cd $WT && env -u GOFLAGS GOPROXY=off go build ./... && env -u GOFLAGS GOPROXY=off go test -vet=off -count=1 ./...) > $d/confirm_suite.log 2>&1; s=$?
   if grep -q "^tools/" <(git -C $WT diff --name-only); then
     (cd $WT/tools && env -u GOFLAGS GOPROXY=off go build ./... && env -u GOFLAGS GOPROXY=off go test -vet=off -count=1 ./...) >> $d/confirm_suite.log 2>&1 || s=1
   fi
-  sh $d/demo/demo.sh $WT > $d/confirm_patched.log 2>&1; c=$?
+  run_demo $WT > $d/confirm_patched.log 2>&1; c=$?
   git -C $WT checkout -q -- . ; git -C $WT clean -fdq
   head=$(git -C /repo rev-parse --short HEAD)
   echo "{\"id\":\"$id\",\"repo_head\":\"$head\",\"demo_clean_exit\":$a,\"tree_dirty_after_clean_demo\":$dirty_a,\"patch_applies\":\"$ap\",\"suite_with_patch_exit\":$s,\"demo_patched_exit\":$c}" > $d/confirm.json
